@@ -236,3 +236,124 @@ reported as no difference at all.`,
 		},
 	})
 }
+
+func init() {
+	register(&Rule{
+		ID: "D1W", Props: []string{"C09", "C13"}, Min: 1,
+		Doc: `"the one-difference test answers 1 exactly when the sequences differ by one substitution or one indel": once the common prefix and the common suffix are stripped, what is left of the LONGER
+sequence (of either, when the lengths are equal) holds at most one symbol. In obialign.D1Or0, at every return whose first result is the constant 1, for each role k: on the paths where len_k >= len_other
+is possible, e_k <= b_k follows — by linear arithmetic over the tests of the path and the invariants of the two scanning loops (cursors stepped together: b1 - b2 and e1 - e2 are kept); the cursors
+are found by their initialisation (0 compared with the length; length - 1). Testing the window of the shorter sequence instead accepts an indel next to a substitution (..ac.. / ..g..) as one
+difference.`,
+		Run: func(c *Ctx, s *Sink) {
+			fd, p := c.FindFunc("pkg/obialign", "D1Or0")
+			key := "pkg/obialign.D1Or0:one-only-when-the-longer-window-holds-one-symbol"
+			if fd == nil {
+				s.Undecided(nil, key, 0, "function not found")
+				return
+			}
+			info := p.TypesInfo
+			ps := flattenParams(fd.Type.Params)
+			if len(ps) < 2 {
+				s.Undecided(nil, key, fd.Pos(), "two parameters expected")
+				return
+			}
+			// l_k: the variable defined from Len() of parameter k
+			var lenVar, endVar, begVar [2]types.Object
+			ast.Inspect(fd.Body, func(n ast.Node) bool {
+				as, ok := n.(*ast.AssignStmt)
+				if !ok || len(as.Lhs) != 1 || len(as.Rhs) != 1 {
+					return true
+				}
+				lhs := rootObj(info, as.Lhs[0])
+				if call, ok := ast.Unparen(as.Rhs[0]).(*ast.CallExpr); ok && len(call.Args) == 0 {
+					if sel, ok := call.Fun.(*ast.SelectorExpr); ok && sel.Sel.Name == "Len" {
+						for k := 0; k < 2; k++ {
+							if rootObj(info, sel.X) == info.ObjectOf(ps[k]) && lenVar[k] == nil {
+								lenVar[k] = lhs
+							}
+						}
+					}
+				}
+				// e_k := l_k - 1
+				if b, ok := ast.Unparen(as.Rhs[0]).(*ast.BinaryExpr); ok && b.Op == token.SUB {
+					if v, isC := constInt(info, b.Y); isC && v == 1 {
+						for k := 0; k < 2; k++ {
+							if lenVar[k] != nil && rootObj(info, b.X) == lenVar[k] && endVar[k] == nil {
+								endVar[k] = lhs
+							}
+						}
+					}
+				}
+				return true
+			})
+			// b_k: compared with l_k by < in the condition of a loop that increments it
+			ast.Inspect(fd.Body, func(n ast.Node) bool {
+				f, ok := n.(*ast.ForStmt)
+				if !ok || f.Cond == nil {
+					return true
+				}
+				for _, cj := range conjuncts(f.Cond) {
+					if b, ok := ast.Unparen(cj).(*ast.BinaryExpr); ok && b.Op == token.LSS {
+						for k := 0; k < 2; k++ {
+							if lenVar[k] != nil && rootObj(info, b.Y) == lenVar[k] && begVar[k] == nil {
+								if _, isId := ast.Unparen(b.X).(*ast.Ident); isId {
+									begVar[k] = rootObj(info, b.X)
+								}
+							}
+						}
+					}
+				}
+				return true
+			})
+			for k := 0; k < 2; k++ {
+				if lenVar[k] == nil || endVar[k] == nil || begVar[k] == nil {
+					s.Undecided(nil, key, fd.Pos(), "the length, the begin cursor (0, compared with the length) and the end cursor (length - 1) of each sequence are not all found")
+					return
+				}
+			}
+			env := &linEnv{info: info, vars: map[types.Object]linForm{}, defs: map[types.Object][]ast.Expr{}, atoms: map[string]bool{}, lens: map[string]bool{}, elems: map[string]linForm{}}
+			n, bad, why := 0, token.NoPos, ""
+			linWalk([]linPath{{env: env}}, fd.Body.List, func(pth linPath, st ast.Stmt) {
+				r, ok := st.(*ast.ReturnStmt)
+				if !ok || len(r.Results) == 0 {
+					return
+				}
+				if v, isC := constInt(info, r.Results[0]); !isC || v != 1 {
+					return
+				}
+				n++
+				pth.env.cur = pth.sys
+				var l, e, b [2]linForm
+				for k := 0; k < 2; k++ {
+					var o1, o2, o3 bool
+					l[k], o1 = pth.env.vars[lenVar[k]]
+					e[k], o2 = pth.env.vars[endVar[k]]
+					b[k], o3 = pth.env.vars[begVar[k]]
+					if !o1 || !o2 || !o3 {
+						bad, why = r.Pos(), "a cursor is not an affine quantity at the return"
+						return
+					}
+				}
+				for k := 0; k < 2; k++ {
+					sys := append(append(linSys{}, pth.known()...), linLE(l[1-k], l[k]))
+					if sys.infeasible() {
+						continue
+					}
+					if !sys.entails(linLE(e[k], b[k])) {
+						bad = r.Pos()
+						why = fmt.Sprintf("with len(seq%d) >= len(seq%d), %s <= %s does not follow", k+1, 2-k, endVar[k].Name(), begVar[k].Name())
+					}
+				}
+			})
+			switch {
+			case n == 0:
+				s.Undecided(nil, key, fd.Pos(), "no return of the value 1 reached by the path enumeration")
+			case bad.IsValid():
+				s.Fail(nil, key, bad, "the answer 1 is returned on a path where the unmatched window of the longer sequence may hold two symbols ("+why+"): an indel next to a substitution — acgtACgt against acgtGgt — is accepted as one difference, obiclean links the two sequences (reported as (-)->(a)@0) and moves the reads of one to the other")
+			default:
+				s.Pass(nil, key, fd.Pos(), fmt.Sprintf("%d return(s) of 1, each where the window left of the longer sequence holds at most one symbol", n))
+			}
+		},
+	})
+}
